@@ -451,11 +451,11 @@ PROP = Prop(
           "is compared before/after. Structures with clear() are then cleared and compared with a fresh object, also under the same further history. "
           "Every case is non-trivial; distinct by hash of (parameters, operations)."),
     workloads=[
-        Workload("bloom", wl_bloom, quick=600, thorough=40000),
-        Workload("expanding", wl_expanding, quick=300, thorough=20000),
-        Workload("sketch", wl_sketch, quick=700, thorough=50000),
-        Workload("cuckoo", wl_cuckoo, quick=400, thorough=30000),
-        Workload("quotient", wl_quotient, quick=400, thorough=30000),
+        Workload("bloom", wl_bloom, quick=600, thorough=200000),
+        Workload("expanding", wl_expanding, quick=300, thorough=100000),
+        Workload("sketch", wl_sketch, quick=700, thorough=250000),
+        Workload("cuckoo", wl_cuckoo, quick=400, thorough=150000),
+        Workload("quotient", wl_quotient, quick=400, thorough=150000),
     ],
     assumptions=["observable state = what the public API exposes (exports, counters, tables, bucket table, print() dump)"],
     required=["read_batches", "read_only_calls", "clear_comparisons", "states_with_zero_total_but_nonzero_cells", "reloaded_states"],
